@@ -63,7 +63,8 @@ def oracle(system, st, action, before, obs):
     if action[0] == 'vle' and action[1] in ('TPl', 'TPg'): return     # reactive flash: totals change by design; only the LATER plain calls are judged
     s = st.s
     after = vc.dense_by_phase(s)
-    tb = sum(before['flows'].values()); ta = sum(after.values())
+    n = len(s.chemicals.IDs)   # a phase dict may be empty (all material destroyed): the sums must stay arrays
+    tb = sum(before['flows'].values(), np.zeros(n)); ta = sum(after.values(), np.zeros(n))
     total = float(tb.sum())
     kind = action[0]
     extra = any(a.any() for p, a in before['flows'].items() if p not in ('g', 'l'))
